@@ -124,6 +124,16 @@ func (p *Program) withImplied(cs []Cond) []Cond {
 
 func (p *Program) impliedBy(k Cond) []Cond {
 	a := k.Atom
+	// a boolean kept in a variable: `ok := a && b` is phi[false, b]; ok == true means the edge that
+	// carries b was taken with b true (and everything that held there); dually for `a || b`
+	if ph, isPhi := k.V.(*ssa.Phi); isPhi && a != nil && isBool(ph.Type()) {
+		return p.impliedByBoolPhi(ph, k.Pol)
+	}
+	if a != nil && a.V != nil {
+		if ph, isPhi := a.V.(*ssa.Phi); isPhi && isBool(ph.Type()) && a.Op == "phi" {
+			return p.impliedByBoolPhi(ph, k.Pol)
+		}
+	}
 	if a == nil || a.Op != "call" || a.Fn == nil {
 		return nil
 	}
@@ -188,6 +198,33 @@ func (p *Program) impliedBy(k Cond) []Cond {
 }
 
 var impliedBusy = map[*ssa.Function]bool{}
+
+func (p *Program) impliedByBoolPhi(ph *ssa.Phi, want bool) []Cond {
+	idx := -1
+	for i, e := range ph.Edges {
+		if c, isC := e.(*ssa.Const); isC && c.Value != nil {
+			if (c.Value.String() == "true") == want {
+				return nil // the wanted value can also come from a constant edge: nothing follows
+			}
+			continue
+		}
+		if idx >= 0 {
+			return nil
+		}
+		idx = i
+	}
+	if idx < 0 {
+		return nil
+	}
+	pred := ph.Block().Preds[idx]
+	c := p.condOf(ph.Edges[idx], true)
+	if !want {
+		c.Pol = !c.Pol
+	}
+	out := []Cond{c}
+	out = append(out, p.CondsAtEdge(pred, ph.Block())...)
+	return out
+}
 
 // edgeDominates: every path to b passes the edge d->s.
 func edgeDominates(d, s, b *ssa.BasicBlock) bool {
